@@ -174,4 +174,11 @@ theorem git_config_empty_value_wins (lfsconfig gitconfig : Source) (key : Bytes)
     Cfg.get (readGitConfig Gen.safeKeys [lfsconfig, gitconfig]) key = some [] :=
   git_config_wins lfsconfig gitconfig key [] h
 
+/-- an EMPTY configuration file (whose `git config -l -f` output is nothing, read as one empty line) contributes
+    no key, no value and no "ignored unsafe key" — in particular not the key `""` with the value true
+    (the repair of D67 first read it that way) -/
+theorem empty_file_contributes_nothing (safeKeys : List Cfg.Bytes) (os : Bool) (st : Cfg.State) :
+    Cfg.readSource safeKeys st ⟨[[]], os⟩ = st := by
+  simp [Cfg.readSource, Cfg.stepLine]
+
 end C11
